@@ -236,6 +236,27 @@ def pm_two_goals(V):
             V.iff(bool(got), V.Or(g1.spec(V, t, (0.0, 0.0), heading, speed), g2.spec(V, t, (0.0, 0.0), heading, speed))))
 
 
+@obligation("C08", "pm.first-goal-unconstrained", functions=F,
+            bounds="point-mass state against 2 goal states in both orders: one constrains only time (and a circle position), the other a velocity "
+                   "interval - so that the conversion to speed / heading is needed only for the later goal state")
+def pm_first_goal_plain(V):
+    g1 = Goal(V, "g1_", "circle" if V.choice("first_goal_has_position", 2) == 1 else None, False, False)
+    g2 = Goal(V, "g2_", None, False, True)
+    t = V.int("s_t", 0)
+    p = (V.real("s_x", -B, B), V.real("s_y", -B, B))
+    vx, vy = V.real("s_vx", -50, 50), V.real("s_vy", -50, 50)
+    s = st.PMState(time_step=t, position=np.array([p[0], p[1]]), velocity=vx, velocity_y=vy)
+    goals = [g1, g2] if V.choice("goal_order", 2) == 0 else [g2, g1]
+    try:
+        got = GoalRegion([g.state for g in goals]).is_reached(s)
+    except ValueError as e:
+        V.fail("the check failed for an admissible point-mass state", repr(e))
+        return
+    speed = V.sqrt(vx * vx + vy * vy)
+    V.prove("pm: reached <=> some goal state satisfied (speed = hypot for the velocity goal)",
+            V.iff(bool(got), V.Or(g1.spec(V, t, p, 0.0, speed), g2.spec(V, t, p, 0.0, speed))))
+
+
 @obligation("C08", "pm.principal-directions", functions=F,
             bounds="point-mass states along the 8 principal directions with symbolic magnitude; heading known exactly")
 def pm_dirs(V):
